@@ -43,8 +43,13 @@ def p_thriftobj(ctx):
             ctx.assumptions.append(a)
     timeout = 10000 if ctx.tier == "quick" else 60000
     tasks = [(k, timeout) for k in c10_thriftobj.TASKS]
-    with cf.ProcessPoolExecutor(max_workers=8, mp_context=mp.get_context("fork")) as ex:
-        results = list(ex.map(_task, tasks))
+    try:
+        with cf.ProcessPoolExecutor(max_workers=8, mp_context=mp.get_context("fork")) as ex:
+            results = list(ex.map(_task, tasks))
+    except Exception:
+        results = [_task(t) for t in tasks]           # a broken pool (machine under load) must not silence the part: run in-process
+    # a task that died in its worker is run once more in-process before it is reported as out of reach
+    results = [r if r[4] is None else _task((r[0], timeout)) for r in results]
     status = {}
     rows = []
     for task, order, d, kinds, err in results:
